@@ -524,6 +524,68 @@ pub fn run(replay: Option<Value>) -> i32 {
             }),
         ));
     }
+    // the same alphabets scaled by a power of two (exactly the same elimination, bit for bit up to the exponent): no
+    // absolute threshold and no squared magnitude may decide a pivot
+    const SCALES: [i32; 3] = [-40, -600, 600];
+    for (n, alpha) in [(1usize, real_alpha12.clone()), (2, real_alpha12.clone()), (3, vec![0, 1, -1])] {
+        let k = alpha.len();
+        let per = k.pow((n * n) as u32);
+        let only = only.clone();
+        groups.push((
+            format!("real n={} alphabet={:?} scaled by 2^{:?}", n, alpha, SCALES),
+            per * SCALES.len(),
+            Box::new(move |idx| {
+                let (si, mi) = (idx / per, idx % per);
+                let key = format!("realscaled:{}:{}:{}:{}", n, k, SCALES[si], mi);
+                if let Some(o) = &only {
+                    if *o != key {
+                        return CaseOut::default();
+                    }
+                }
+                let digits = crate::util::decode(mi, &vec![k; n * n]);
+                let ai: Vec<i64> = digits.iter().map(|d| alpha[*d]).collect();
+                let f = 2f64.powi(SCALES[si]);
+                let a: Vec<f64> = ai.iter().map(|v| *v as f64 * f).collect();
+                let desc = json!({"key": key, "n": n, "matrix_before_scaling": ai, "scale": format!("2^{}", SCALES[si])});
+                let mut o = check_real(&key, n, &a, Some(det_real(n, &ai)), desc.clone());
+                for v in o.violations.iter_mut() {
+                    v.sig.insert("scale".into(), format!("2^{}", SCALES[si]));
+                }
+                o.sample = Some(desc);
+                o
+            }),
+        ));
+    }
+    for (n, alpha) in [(1usize, cplx_alpha12.clone()), (2, cplx_alpha12.clone()), (3, vec![(0, 0), (1, 0), (0, 1)])] {
+        let k = alpha.len();
+        let per = k.pow((n * n) as u32);
+        let only = only.clone();
+        groups.push((
+            format!("complex n={} alphabet={:?} scaled by 2^{:?}", n, alpha, SCALES),
+            per * SCALES.len(),
+            Box::new(move |idx| {
+                let (si, mi) = (idx / per, idx % per);
+                let key = format!("complexscaled:{}:{}:{}:{}", n, k, SCALES[si], mi);
+                if let Some(o) = &only {
+                    if *o != key {
+                        return CaseOut::default();
+                    }
+                }
+                let digits = crate::util::decode(mi, &vec![k; n * n]);
+                let c: Vec<C> = digits.iter().map(|d| alpha[*d]).collect();
+                let f = 2f64.powi(SCALES[si]);
+                let ar: Vec<f64> = c.iter().map(|v| v.0 as f64 * f).collect();
+                let ai: Vec<f64> = c.iter().map(|v| v.1 as f64 * f).collect();
+                let desc = json!({"key": key, "n": n, "scale": format!("2^{}", SCALES[si])});
+                let mut o = check_complex(&key, n, &ar, &ai, Some(det_complex(n, &c)), desc.clone());
+                for v in o.violations.iter_mut() {
+                    v.sig.insert("scale".into(), format!("2^{}", SCALES[si]));
+                }
+                o.sample = Some(desc);
+                o
+            }),
+        ));
+    }
     for (n, alpha) in [(1usize, cplx_alpha12.clone()), (2, cplx_alpha12.clone()), (3, cplx_alpha.clone())] {
         let k = alpha.len();
         let total = k.pow((n * n) as u32);
